@@ -102,6 +102,10 @@ func (s *FuzzServiceStub) ImportBlock(block types.Block) (types.StateRoot, error
 	// Run the STF and get the state root
 	isProtocolError, err := stf.RunSTF()
 	if err != nil {
+		// A rejected block must leave the node as it was before the import
+		if rollbackErr := cs.RollbackFailedImport(block.Header.Parent); rollbackErr != nil {
+			logger.Errorf("%s rollback after failed import: %v", ctx, rollbackErr)
+		}
 		if !isProtocolError {
 			// Runtime error: unexpected bug, should terminate the program
 			// Note: We return the error here, caller (server) should decide to close connection
